@@ -5,7 +5,12 @@ PROPERTY = 'C09'
 ASSUMPTIONS = ['network value built by netbuild (equal to Network::new by C17)', 'activity durations >= 1 s',
                'cost rates are the concrete tuple of distinct primes (staff 2, service 3, maintenance 5, dead-head 7, idle 11); durations, distances and times symbolic',
                'pre-states are produced by the real constructors executed symbolically']
-BOUNDS = {'quick': 'tour level: as C12 quick plus replace_start/end_depot incl. tours on the overflow depot', 'thorough': 'tour level: as C12 thorough'}
+BOUNDS = {'quick': 'tour level: as C12 quick plus replace_start/end_depot incl. tours on the overflow depot; schedule level: as C10 quick', 'thorough': 'tour level: as C12 thorough; schedule level: as C10 thorough'}
 OUTSIDE = 'histories longer than the bound'
 REQUIRED_COVERS = {'quick': ['insert: overflow depot in result'], 'thorough': ['insert: overflow depot in result']}
-def jobs(tier, seed): return TO.all_jobs(tier, seed, ['C09'])
+from . import schedops as SO
+from .schedops import job_script
+def jobs(tier, seed): return TO.all_jobs(tier, seed, ['C09']) + SO.all_jobs(tier, seed, ['C09'])
+_tour_confirm = TO.confirm; _tour_validate = TO.validate
+def confirm(c): return SO.confirm(c) if 'native_confirmed' in c else _tour_confirm(c)
+def validate(w): return SO.validate(w) if w.get('check') == 'script' else _tour_validate(w)
